@@ -989,3 +989,59 @@ MA('C02', 'space norm forwards to dist', NPYF, 'NumpyTensorSpace._norm',
 MA('C02', 'LinearSpace.inner swaps its arguments', 'odl/set/space.py',
    'LinearSpace.inner', 'return self.field.element(self._inner(x1, x2))',
    'return self.field.element(self._inner(x2, x1))', 'LinearSpace.inner')
+
+# ---- C17 -------------------------------------------------------------------
+UFNF = 'odl/util/ufuncs.py'
+BTF = 'odl/space/base_tensors.py'
+UTLF = 'odl/util/utility.py'
+MA('C17', 'negative reduce axes not normalised', DSPF,
+   'DiscretizedSpaceElement.__array_ufunc__',
+   'axis = tuple((int(ax) % self.ndim for ax in axis))', 'pass',
+   'add.reduce(axis=-1)')
+M('C17', 'pspace two-output wrapper passes out1/out2', UFNF,
+  "getattr(x.ufuncs, name)(out=(out1_x, out2_x), **kwargs)",
+  "getattr(x.ufuncs, name)(out1=out1_x, out2=out2_x, **kwargs)",
+  'pspace x.ufuncs.modf')
+MA('C17', 'writable_array writes back with [:] on 0-d', UTLF,
+   'writable_array', 'if arr.ndim == 0:...', 'obj[:] = arr',
+   'axis=None),out=ndarray')
+MA('C17', 'tensor operands not unwrapped', NPYF,
+   'NumpyTensor.__array_ufunc__',
+   'inputs = tuple((inp.asarray() if isinstance(inp, type(self)) else inp for inp in inputs))',
+   'inputs = tuple(inputs)', 'NumpyTensor:')
+MA('C17', 'result space keeps the operand dtype', NPYF,
+   'NumpyTensor.__array_ufunc__',
+   'out_space = type(self.space)(self.shape, res.dtype, **spc_kwargs)',
+   'out_space = type(self.space)(self.shape, self.dtype, **spc_kwargs)',
+   'isfinite')
+MA('C17', 'methods ignore the out argument', NPYF,
+   'NumpyTensor.__array_ufunc__', "if method != 'at':...", 'pass',
+   'out=')
+MA('C17', 'discretized call returns the tensor of out', DSPF,
+   'DiscretizedSpaceElement.__array_ufunc__', 'result = out_tuple[0]',
+   'result = out', 'out=delem', nth=0)
+MA('C17', 'second output returns the first out', DSPF,
+   'DiscretizedSpaceElement.__array_ufunc__', 'result2 = out_tuple[1]',
+   'result2 = out_tuple[0]', 'out=(delem,delem)')
+MA('C17', 'default reduce axis keeps the wrong axes', DSPF,
+   'DiscretizedSpaceElement.__array_ufunc__',
+   'reduced_axes = list(range(1, self.ndim))',
+   'reduced_axes = list(range(self.ndim - 1))', 'add.reduce(axis=absent)')
+MA('C17', 'legacy min uses maximum', UFNF, 'TensorSpaceUfuncs.min',
+   "return self.elem.__array_ufunc__(np.minimum, 'reduce', self.elem, axis=axis, dtype=dtype, out=(out,), keepdims=keepdims)",
+   "return self.elem.__array_ufunc__(np.maximum, 'reduce', self.elem, axis=axis, dtype=dtype, out=(out,), keepdims=keepdims)",
+   'x.ufuncs.min')
+M('C17', 'legacy binary wrapper swaps operands', UFNF,
+  "ufunc, '__call__', self.elem, x2, out=(out,), **kwargs)",
+  "ufunc, '__call__', x2, self.elem, out=(out,), **kwargs)",
+  'x.ufuncs.add')
+MA('C17', 'wrapping always copies', NPYF, 'NumpyTensorSpace.element',
+   'arr = np.array(inp, copy=False, dtype=self.dtype, ndmin=self.ndim, order=order)',
+   'arr = np.array(inp, copy=True, dtype=self.dtype, ndmin=self.ndim, order=order)',
+   'shares memory')
+MA('C17', '__array__ copies', BTF, 'Tensor.__array__',
+   'return self.asarray()', 'return self.asarray().copy()', 'shares memory')
+MA('C17', 'outer appends the partitions in reverse', DSPF,
+   'DiscretizedSpaceElement.__array_ufunc__',
+   'part = inp1.space.partition.append(inp2.space.partition)',
+   'part = inp2.space.partition.append(inp1.space.partition)', 'add.outer')
